@@ -258,6 +258,45 @@ def declarator_case(chk, t):
     return Verdict(HELD, cname, obs={"declarator_cases": 1}, nontrivial=True, key=cname)
 
 
+KW_STATIC = ["type", "match", "loop", "move", "impl", "use", "ref", "mod", "where", "async", "dyn", "box", "in", "let", "pub", "self", "trait", "unsafe",
+             "yield", "try", "gen", "fn", "as", "crate", "super", "mut", "priv", "macro", "abstract", "final", "override", "virtual"]
+
+
+def keyword_case(chk):
+    """static functions whose C name is a Rust keyword (the binding is renamed `type_`): every binding still names a wrapper that exists,
+    and calling it reaches the function"""
+    d = chk.dir("kwstatic")
+    text = "".join("static inline int %s(int a) { return a * 100 + %d; }\n" % (w, k) for k, w in enumerate(KW_STATIC))
+    hdr = write(os.path.join(d, "kw.h"), text)
+    wrap = os.path.join(d, "w")
+    b = os.path.join(d, "b.rs")
+    rc, so, se, _ = sh([build.BINDGEN, hdr, "--experimental", "--wrap-static-fns", "--wrap-static-fns-path", wrap, "-o", b], timeout=60)
+    if rc != 0:
+        return Verdict(INCONCLUSIVE, "keyword-named-statics", "bindgen failed " + se[-200:])
+    bt = open(b).read()
+    files = {"kw.h": text, "bindings.rs": bt, "w.c": open(wrap + ".c").read() if os.path.exists(wrap + ".c") else ""}
+    rc, so, se, _ = sh(["clang", "-c", wrap + ".c", "-o", os.path.join(d, "w.o"), "-I", d], timeout=60)
+    if rc != 0:
+        return Verdict(VIOLATED, "keyword-named-statics", "wrapper source does not compile: " + se[:400], files=files)
+    rc, nm, se, _ = sh(["llvm-nm", "-g", "--defined-only", os.path.join(d, "w.o")], timeout=60)
+    syms = set(l.split()[-1] for l in nm.splitlines() if l.strip())
+    links = re.findall(r'link_name = "(?:\\u\{1\})?([^"]+)"\]\s*pub fn (\w+)', bt)
+    dangling = sorted(ln for ln, fn_ in links if ln not in syms)
+    unbound = sorted(w for w in KW_STATIC if not re.search(r"pub fn (?:r#)?%s_?\s*\(" % w, bt))
+    if dangling or unbound:
+        return Verdict(VIOLATED, "keyword-named-statics", "bindings name symbols no wrapper defines: %s; static functions without a binding: %s" % (dangling[:8], unbound[:8]), files=files)
+    # behaviour: call every one
+    calls = "".join('    assert_eq!(unsafe { %s(7) }, %d);\n' % (fn_, 700 + KW_STATIC.index(fn_.rstrip("_").replace("r#", "")) if fn_.rstrip("_").replace("r#", "") in KW_STATIC else -1) for ln, fn_ in links)
+    prs = write(os.path.join(d, "m.rs"), '#![allow(warnings)]\ninclude!("%s");\nfn main() {\n%s    println!("ok {}", %d);\n}\n' % (b, calls, len(links)))
+    rc, so, se, _ = sh(["rustc", "--edition", "2021", prs, "-C", "link-arg=" + os.path.join(d, "w.o"), "-o", os.path.join(d, "m")], timeout=180)
+    if rc != 0:
+        return Verdict(VIOLATED if "undefined" in se else INCONCLUSIVE, "keyword-named-statics", "caller does not build: " + se[:500], files=files)
+    rc, so, se, _ = sh([os.path.join(d, "m")], timeout=30)
+    if rc != 0 or not so.startswith("ok %d" % len(KW_STATIC)):
+        return Verdict(VIOLATED, "keyword-named-statics", "calling the renamed bindings: rc=%s %s %s" % (rc, so[:100], se[:300]), files=files)
+    return Verdict(HELD, "keyword-named-statics", obs={"keyword_named_static_functions": len(links)}, nontrivial=True, key="keyword-named-statics")
+
+
 def cxx_repro(chk):
     d = chk.dir("cxx")
     hdr = write(os.path.join(d, "s.hpp"), "static inline int add(int a, int b) { return a + b; }\n")
@@ -278,6 +317,7 @@ def cxx_repro(chk):
 def run(chk):
     chk.add(cxx_repro(chk))
     chk.map(lambda t: declarator_case(chk, t), DECLARATORS)
+    chk.add(keyword_case(chk))
     chk.map(lambda i: case(chk, i), range(chk.pick(40, 400)), budget_s=chk.pick(500, 3000))
     return chk.finish(
         rule="case = generated header of 1..16 static / static inline functions (bodies print what arrives and return fixed values) over scalars, "
